@@ -34,7 +34,7 @@ theorem flag_consts :
 /-- reading the payload: FIFO pointer := current RX address, burst read of the reported length -/
 theorem wp_loraRxReadPayload (h : Handle) (c : Chip) (bus : List BusEv) (cbs : List CbEvent) (Q)
     (wf : c.WF) (hl : c.isLora = true) (hm : h.activeModem = Gen.SX127x_MODULATION_LORA) (hexp : h.expected = 0)
-    (hcap : 255 ≤ h.packet.length) :
+    (hcap : (c.lora.rd 0x13).toNat ≤ h.packet.length) :
     wp loraRxReadPayload h ⟨c, bus, cbs⟩ Q ↔
       Q (.ok ()) { h with expected := (c.lora.rd 0x13).toUInt16,
                           packet := h.packet.wrs 0 (loraPacket c (c.lora.rd 0x10) (c.lora.rd 0x13).toNat) }
@@ -74,14 +74,14 @@ theorem wp_loraRxReadPayload (h : Handle) (c : Chip) (bus : List BusEv) (cbs : L
 
 /-- **C05, explicit header.** In LoRa mode, when the chip has raised RxDone without CadDone and
     without PayloadCrcError (any combination of the other flags), for every packet length
-    0..255 reported in RegRxNbBytes, every start address in RegFifoRxCurrentAddr (wrap-around
+    0..255 reported in RegRxNbBytes that fits the packet buffer (any buffer size), every start address in RegFifoRxCurrentAddr (wrap-around
     included), every buffer content, every prior FIFO pointer and every other handle field: one
     handler invocation invokes the receive callback exactly once, with exactly the bytes the
     chip stored and the reported length, acknowledges exactly the flags it read, and leaves the
     per-packet state reset (the outcome does not depend on what preceded). -/
 theorem C05_rx_done (fuel : Nat) (h : Handle) (c : Chip) (wf : c.WF) (hl : c.isLora = true)
     (hm : h.activeModem = Gen.SX127x_MODULATION_LORA) (hcb : h.rxCb = true) (hexp : h.expected = 0)
-    (hcap : 255 ≤ h.packet.length)
+    (hcap : (c.lora.rd 0x13).toNat ≤ h.packet.length)
     (hcad : c.lora.rd 0x12 &&& 0x04 = 0) (hcrc : c.lora.rd 0x12 &&& 0x20 = 0) (hrx : c.lora.rd 0x12 &&& 0x40 ≠ 0) :
     wp (handleInterrupt fuel) h ⟨c, [], []⟩ (fun r h' s' =>
       s'.cbs = [.rx (loraPacket c (c.lora.rd 0x10) (c.lora.rd 0x13).toNat) (c.lora.rd 0x13).toNat] ∧
@@ -96,7 +96,8 @@ theorem C05_rx_done (fuel : Nat) (h : Handle) (c : Chip) (wf : c.WF) (hl : c.isL
     not_true_eq_false, not_false_eq_true, ↓reduceIte, write_lora_flags _ _ hl]
   have wf1 : ({ c with lora := c.lora.wr 0x12 (c.lora.rd 0x12 &&& ~~~ c.lora.rd 0x12) } : Chip).WF :=
     ⟨wf.hs, by simp [wf.hl], wf.hf, wf.hb⟩
-  rw [wp_attempt, wp_loraRxReadPayload _ _ _ _ _ wf1 (by exact hl) hm hexp hcap]
+  rw [wp_attempt, wp_loraRxReadPayload _ _ _ _ _ wf1 (by exact hl) hm hexp
+    (by show ((c.lora.wr 0x12 _).rd 0x13).toNat ≤ _; rw [rd_wr_ne _ 0x12 0x13 _ (by decide)]; exact hcap)]
   simp only [rd_wr_ne _ 0x12 0x13 _ (by decide), rd_wr_ne _ 0x12 0x10 _ (by decide), loraPacket]
   unfold rxCallback
   simp only [wp_bind, wp_pure, wp_getH, hcb, ↓reduceIte, wp_cb, wp_modH]
@@ -120,7 +121,7 @@ set_option linter.unusedSimpArgs false in
     RegRxNbBytes is not read -/
 theorem wp_loraRxReadPayload_implicit (h : Handle) (c : Chip) (bus : List BusEv) (cbs : List CbEvent) (Q)
     (wf : c.WF) (hl : c.isLora = true) (hm : h.activeModem = Gen.SX127x_MODULATION_LORA) (hexp : h.expected ≠ 0)
-    (hcap : 255 ≤ h.packet.length) :
+    (hcap : h.expected.toUInt8.toNat ≤ h.packet.length) :
     wp loraRxReadPayload h ⟨c, bus, cbs⟩ Q ↔
       Q (.ok ()) { h with expected := h.expected.toUInt8.toUInt16,
                           packet := h.packet.wrs 0 (loraPacket c (c.lora.rd 0x10) h.expected.toUInt8.toNat) }
@@ -167,7 +168,7 @@ theorem wp_loraRxReadPayload_implicit (h : Handle) (c : Chip) (bus : List BusEv)
     per-packet state reset (the outcome does not depend on what preceded). -/
 theorem C05_rx_done_implicit (fuel : Nat) (h : Handle) (c : Chip) (wf : c.WF) (hl : c.isLora = true)
     (hm : h.activeModem = Gen.SX127x_MODULATION_LORA) (hcb : h.rxCb = true) (hexp : h.expected ≠ 0)
-    (hcap : 255 ≤ h.packet.length)
+    (hcap : h.expected.toUInt8.toNat ≤ h.packet.length)
     (hcad : c.lora.rd 0x12 &&& 0x04 = 0) (hcrc : c.lora.rd 0x12 &&& 0x20 = 0) (hrx : c.lora.rd 0x12 &&& 0x40 ≠ 0) :
     wp (handleInterrupt fuel) h ⟨c, [], []⟩ (fun r h' s' =>
       s'.cbs = [.rx (loraPacket c (c.lora.rd 0x10) h.expected.toUInt8.toNat) h.expected.toUInt8.toNat] ∧
@@ -202,6 +203,35 @@ theorem C05_rx_done_implicit (fuel : Nat) (h : Handle) (c : Chip) (wf : c.WF) (h
   · split <;> rfl
 
 
+
+/-- **C05, a packet longer than the packet buffer** (builds with a small
+    CONFIG_SX127X_MAX_PACKET_SIZE): it is not read and not delivered, the handle is exactly what
+    it was, and the flags are acknowledged as read — the next packet is handled from scratch. -/
+theorem C05_rx_too_long (fuel : Nat) (h : Handle) (c : Chip) (wf : c.WF) (hl : c.isLora = true)
+    (hm : h.activeModem = Gen.SX127x_MODULATION_LORA) (hexp : h.expected = 0)
+    (hlong : (c.lora.rd 0x13).toNat > h.packet.length)
+    (hcad : c.lora.rd 0x12 &&& 0x04 = 0) (hcrc : c.lora.rd 0x12 &&& 0x20 = 0) (hrx : c.lora.rd 0x12 &&& 0x40 ≠ 0) :
+    wp (handleInterrupt fuel) h ⟨c, [], []⟩ (fun _ h' s' =>
+      s'.cbs = [] ∧ h' = h ∧
+      s'.chip.lora.rd 0x12 = c.lora.rd 0x12 &&& ~~~ c.lora.rd 0x12 ∧
+      s'.chip.buf = c.buf ∧ s'.chip.shared = c.shared ∧ s'.chip.fsk = c.fsk) := by
+  rw [wp_handleInterrupt_lora _ _ _ _ hm]
+  unfold loraHandleInterrupt loraReadGuard
+  simp only [wp_bind, wp_rread, wp_swrite, wp_getH, show Gen.REGIRQFLAGS = 0x12 from rfl,
+    readN_one _ 0x12 (by decide), show (0x12 % 128) = 0x12 from rfl, peek_lora _ _ hl (show inPage 0x12 = true by decide),
+    be32_single, writeN_one, flag_consts.1, flag_consts.2.1, flag_consts.2.2.1, hcad, hcrc, hrx, ne_eq,
+    not_true_eq_false, not_false_eq_true, ↓reduceIte, write_lora_flags _ _ hl]
+  rw [wp_attempt]
+  unfold loraRxReadPayload
+  simp only [wp_bind, wp_checkModulation, hm, ne_eq, not_true_eq_false, ↓reduceIte, wp_getH, hexp, wp_rread,
+    show Gen.REGRXNBBYTES = 0x13 from rfl, readN_one _ 0x13 (by decide), show (0x13 % 128) = 0x13 from rfl,
+    peek_lora _ _ (show ({ c with lora := c.lora.wr 0x12 (c.lora.rd 0x12 &&& ~~~ c.lora.rd 0x12) } : Chip).isLora = true from hl)
+      (show inPage 0x13 = true by decide), be32_single, rd_wr_ne _ 0x12 0x13 _ (by decide)]
+  rw [wp_ite, if_pos hlong, wp_fail]
+  simp only [wp_bind, wp_modH, wp_fail]
+  refine ⟨trivial, ?_, ?_, trivial, trivial, trivial⟩
+  · cases h; simp_all
+  · exact rd_wr_same _ _ _ (by rw [wf.hl]; decide)
 
 /-- a packet flagged with a payload CRC error is never delivered: the handler only acknowledges
     the flags and restarts the hop sequence -/
@@ -246,7 +276,7 @@ theorem wp_irq (cap fuel : Nat) (h : Handle) (s : PState) (Q : Except Code Unit 
 theorem C05_cached (c : SysCfg) (hc : c.cached = true) (hnr : c.NoReact) (s : Sys) (i : Inv s.world)
     (h : Handle) (hh : s.handle = some h) (hl : s.world.chip.isLora = true)
     (hm : h.activeModem = Gen.SX127x_MODULATION_LORA) (hcb : h.rxCb = true) (hexp : h.expected = 0)
-    (hcap : 255 ≤ h.packet.length)
+    (hcap : (s.world.chip.lora.rd 0x13).toNat ≤ h.packet.length)
     (hcad : s.world.chip.lora.rd 0x12 &&& 0x04 = 0) (hcrc : s.world.chip.lora.rd 0x12 &&& 0x20 = 0)
     (hrx : s.world.chip.lora.rd 0x12 &&& 0x40 ≠ 0) :
     let st := s.step c (.api .irq [] [])
@@ -273,7 +303,7 @@ theorem C05_cached (c : SysCfg) (hc : c.cached = true) (hnr : c.NoReact) (s : Sy
 theorem C05_cached_implicit (c : SysCfg) (hc : c.cached = true) (hnr : c.NoReact) (s : Sys) (i : Inv s.world)
     (h : Handle) (hh : s.handle = some h) (hl : s.world.chip.isLora = true)
     (hm : h.activeModem = Gen.SX127x_MODULATION_LORA) (hcb : h.rxCb = true) (hexp : h.expected ≠ 0)
-    (hcap : 255 ≤ h.packet.length)
+    (hcap : h.expected.toUInt8.toNat ≤ h.packet.length)
     (hcad : s.world.chip.lora.rd 0x12 &&& 0x04 = 0) (hcrc : s.world.chip.lora.rd 0x12 &&& 0x20 = 0)
     (hrx : s.world.chip.lora.rd 0x12 &&& 0x40 ≠ 0) :
     let st := s.step c (.api .irq [] [])
